@@ -70,3 +70,16 @@ func init() {
 		},
 	})
 }
+
+func init() {
+	register(propSpec{
+		ID: "C10",
+		Explanation: "Each built-in range iterator is decided by an inductive argument over its abstract state, extracted from the SSA of its constructor, MoveNext and Current (base: the constructor's state advanced once; step: a fully symbolic state advanced once): integer and slice iterators have first key 0, key' = key+1, guard key' < n / len(own slice header) (length snapshot) and live element reads; the string iterator keeps the string itself, decodes the remaining bytes with unicode/utf8, reports the offset it decoded at and advances by the decoder's width; the map iterator delegates to reflect.MapRange of the live map and no path of Current can panic (nil interface keys/values); the channel iterator reports the comma-ok receive; every Current is pure. This decides 0..n-1 / nothing for n<=0 / byte offsets / U+FFFD width 1 / deleted-before-reached for every input at once. Not decided: element equality beyond these facts; correctness of reflect and unicode/utf8.",
+		Trusted: []string{"reflect.MapIter iterates like Go's range over a map", "unicode/utf8.DecodeRuneInString decodes like Go's range over a string", "go/ssa construction"},
+		Run: func(c *Ctx) {
+			s := newSeqRT(c)
+			s.ruleIters()
+			c.guard("SEQ.LAZY", s.ruleLazyIters)
+		},
+	})
+}
